@@ -29,12 +29,12 @@ def _list_like_ensures(c, copy: bool, klass: str = "list"):
     if c.is_return:
         r = c.result
         if copy:
-            out["C01: image is a fresh list of the elements' images"] = z3.And(
-                cls(r) == K("list"),
-                c.fresh(r),
+            out["C01: image is a list"] = cls(r) == K("list")
+            out["C01: image items are the elements' images"] = z3.And(
                 c.llen(r) == n,
                 T.forall([j], z3.Implies(z3.And(j >= 0, j < n), c.lget(r, j) == T.img(vm, c.lget0(data, j))), patterns=[c.lget(r, j)]),
             )
+            out["C03/C08: image is a fresh list (shares nothing with the input)"] = c.fresh(r)
         else:
             out["C08: check-only variant returns the input itself"] = r == data
     if c.is_raise:
@@ -66,7 +66,7 @@ def _inv_errors(c, errs, vm, data, i):
 class ListMethodDeserialize:
     kinds = {"data": "list", "values": "list"}
     raises = ["ValidationError"]
-    exports = ["C01: returns iff data is an array whose elements all conform and whose constraints hold"]
+    exports = ["C01: returns iff data is an array whose elements all conform and whose constraints hold", "C01: image is a list", "C01: image items are the elements' images"]
 
     def requires(self, c):
         return [isinst(c.self, "ListMethod")] + _wf(c)
